@@ -1034,36 +1034,12 @@ func (e *Engine) intrinsic(fi *FnInfo) *Native {
 		})
 	case "vfFieldLen":
 		// vfFieldLen(x, "a.b.c"): len of the map/slice/chan reached from pointer x through the named
-		// (possibly unexported) fields, dereferencing pointers on the way.
+		// (possibly unexported) fields, dereferencing pointers on the way; -1 when the tree under
+		// analysis has no such field (renamed internals: the caller's oracle degrades, see vfNote)
 		return simple(func(e *Engine, s *State, gi int, args []Value) Value {
-			x := args[0].(Iface)
-			path, _ := args[1].(string)
-			var cur Value = x.v
-			t := x.t
-			for _, name := range strings.Split(path, ".") {
-				for {
-					pt, ok := t.Underlying().(*types.Pointer)
-					if !ok {
-						break
-					}
-					cur = e.load(s, cur.(Ptr))
-					t = pt.Elem()
-				}
-				st, ok := t.Underlying().(*types.Struct)
-				if !ok {
-					panic(engineErr("vfFieldLen: not a struct at " + name))
-				}
-				idx := -1
-				for i := 0; i < st.NumFields(); i++ {
-					if st.Field(i).Name() == name {
-						idx = i
-					}
-				}
-				if idx < 0 {
-					panic(engineErr("vfFieldLen: no field " + name))
-				}
-				cur = cur.(*StructV).f[idx]
-				t = st.Field(idx).Type()
+			cur, _, ok := e.peekPath(s, args[0].(Iface), args[1].(string))
+			if !ok {
+				return ts.Const(64, ^uint64(0))
 			}
 			switch v := cur.(type) {
 			case MapV:
@@ -1079,7 +1055,80 @@ func (e *Engine) intrinsic(fi *FnInfo) *Native {
 				}
 				return ts.Const(64, uint64(len(e.obj(s, v.obj).ch.buf)))
 			}
-			panic(engineErr("vfFieldLen: unsupported field kind"))
+			return ts.Const(64, ^uint64(0))
+		})
+	case "vfMapHas", "vfMapFieldIs":
+		// vfMapHas(x, "path.to.map", key) / vfMapFieldIs(x, path, key, field, want): look into an
+		// internal table by field NAME: -1 when the names do not resolve on this tree, else 0/1.
+		isField := fi.fn.Name() == "vfMapFieldIs"
+		return simple(func(e *Engine, s *State, gi int, args []Value) Value {
+			cur, t, ok := e.peekPath(s, args[0].(Iface), args[1].(string))
+			neg := ts.Const(64, ^uint64(0))
+			if !ok {
+				return neg
+			}
+			mv, isMap := cur.(MapV)
+			mt, isMT := t.Underlying().(*types.Map)
+			if !isMap || !isMT {
+				return neg
+			}
+			if isField {
+				// resolve the field statically first, so that a renamed field is reported as -1
+				et := mt.Elem()
+				if pt, ok := et.Underlying().(*types.Pointer); ok {
+					et = pt.Elem()
+				}
+				st, ok := et.Underlying().(*types.Struct)
+				if !ok {
+					return neg
+				}
+				found := false
+				for i := 0; i < st.NumFields(); i++ {
+					if st.Field(i).Name() == args[3].(string) {
+						found = true
+					}
+				}
+				if !found {
+					return neg
+				}
+			}
+			if mv.obj == 0 {
+				return ts.Const(64, 0)
+			}
+			md := e.obj(s, mv.obj).m
+			idx := -1
+			for i, mk := range md.keys {
+				if sameKey(mk, args[2]) {
+					idx = i
+				}
+			}
+			if idx < 0 {
+				return ts.Const(64, 0)
+			}
+			if !isField {
+				return ts.Const(64, 1)
+			}
+			var v Value = md.vals[idx]
+			vt := mt.Elem()
+			if pt, ok := vt.Underlying().(*types.Pointer); ok {
+				p := v.(Ptr)
+				if p.obj == 0 {
+					return ts.Const(64, 0)
+				}
+				v = e.load(s, p)
+				vt = pt.Elem()
+			}
+			st := vt.Underlying().(*types.Struct)
+			for i := 0; i < st.NumFields(); i++ {
+				if st.Field(i).Name() == args[3].(string) {
+					fv := v.(*StructV).f[i]
+					if eq := e.equal(fv, args[4]); eq.IsTrue() {
+						return ts.Const(64, 1)
+					}
+					return ts.Const(64, 0)
+				}
+			}
+			return neg
 		})
 	case "vfFieldGetUint", "vfFieldSetUint":
 		// read / write an integer field reached through named (possibly unexported) fields; works for
@@ -1093,7 +1142,10 @@ func (e *Engine) intrinsic(fi *FnInfo) *Native {
 			for _, name := range strings.Split(path, ".") {
 				st, ok := t.Underlying().(*types.Struct)
 				if !ok {
-					panic(engineErr("vfField*: not a struct at " + name))
+					if isSet {
+						return nil
+					}
+					return ts.Const(64, 0)
 				}
 				idx := -1
 				for i := 0; i < st.NumFields(); i++ {
@@ -1102,7 +1154,10 @@ func (e *Engine) intrinsic(fi *FnInfo) *Native {
 					}
 				}
 				if idx < 0 {
-					panic(engineErr("vfField*: no field " + name))
+					if isSet {
+						return nil
+					}
+					return ts.Const(64, 0)
 				}
 				ptr = subPtr(ptr, []int{idx})
 				t = st.Field(idx).Type()
@@ -1118,7 +1173,10 @@ func (e *Engine) intrinsic(fi *FnInfo) *Native {
 			}
 			w, _, ok := intWidth(t)
 			if !ok {
-				panic(engineErr("vfField*: not an integer field"))
+				if isSet {
+					return nil
+				}
+				return ts.Const(64, 0)
 			}
 			if isSet {
 				e.store(s, ptr, e.toW(args[2].(*Term), w, false))
@@ -1269,4 +1327,44 @@ func (e *Engine) timerCtx(s *State) map[int]int {
 		s.timersMap = map[int]int{}
 	}
 	return s.timersMap
+}
+
+// peekPath follows named (possibly unexported) fields from x, dereferencing pointers on the way.
+// ok is false when a name does not exist on the tree under analysis.
+func (e *Engine) peekPath(s *State, x Iface, path string) (Value, types.Type, bool) {
+	if x.t == nil {
+		return nil, nil, false
+	}
+	var cur Value = x.v
+	t := x.t
+	for _, name := range strings.Split(path, ".") {
+		for {
+			pt, ok := t.Underlying().(*types.Pointer)
+			if !ok {
+				break
+			}
+			p, isP := cur.(Ptr)
+			if !isP || p.obj == 0 {
+				return nil, nil, false
+			}
+			cur = e.load(s, p)
+			t = pt.Elem()
+		}
+		st, ok := t.Underlying().(*types.Struct)
+		if !ok {
+			return nil, nil, false
+		}
+		idx := -1
+		for i := 0; i < st.NumFields(); i++ {
+			if st.Field(i).Name() == name {
+				idx = i
+			}
+		}
+		if idx < 0 {
+			return nil, nil, false
+		}
+		cur = cur.(*StructV).f[idx]
+		t = st.Field(idx).Type()
+	}
+	return cur, t, true
 }
